@@ -726,6 +726,65 @@ def gen_delete_snapshot(sm: ast.Module) -> str:
             f"Definition gen_delete_snapshot (m : meta) (snapshot_id : Z) : pyres (option meta) :=\n  {term}.\n")
 
 
+
+def gen_create_snapshot(sm: ast.Module) -> str:
+    """SnapshotManager.create_snapshot with the caller's base / id / sequence number: statement shape checked one by one,
+    the metadata update emitted from it (Snapshot / HistoryEntry constructors map to the model's records)."""
+    fn = find_function(sm, "create_snapshot", "SnapshotManager")
+    where = "SnapshotManager.create_snapshot"
+    body = [x for x in strip_docstring(fn.body) if not isinstance(x, (ast.Import, ast.ImportFrom))]
+    src = [_u(x) for x in body]
+    want = [
+        "if base_metadata is None:\n    base_metadata = self.metadata_manager.refresh()",
+        "if base_metadata is None:\n    raise ValueError('Cannot create snapshot: no current metadata')",
+        "if snapshot_id is None:\n    snapshot_id = uuid.uuid4().int & (1 << 63) - 1",
+        "if sequence_number is None:\n    sequence_number = base_metadata.last_sequence_number + 1",
+        None,   # snapshot = Snapshot(...)
+        "new_metadata = deepcopy(base_metadata)",
+        "new_metadata.snapshots.append(snapshot)",
+        "new_metadata.current_snapshot_id = snapshot_id",
+        "new_metadata.last_sequence_number = max(base_metadata.last_sequence_number, sequence_number)",
+        "history_entry = HistoryEntry(timestamp_ms=snapshot.timestamp_ms, snapshot_id=snapshot.snapshot_id)",
+        "new_metadata.snapshot_log.append(history_entry)",
+        "if metadata_mutator is not None:\n    metadata_mutator(new_metadata)\n    if all((s.snapshot_id != snapshot_id for s in new_metadata.snapshots)):\n"
+        "        raise ValueError('metadata_mutator removed the snapshot being committed')",
+        "self._apply_retention(new_metadata)",
+        "self.metadata_manager.commit(base_metadata, new_metadata)",
+        "return snapshot",
+    ]
+    if len(src) != len(want):
+        raise Unsupported(f"{where}: {len(src)} statements, expected {len(want)}")
+    for k, (g, w) in enumerate(zip(src, want)):
+        if w is not None and g != w:
+            raise Unsupported(f"{where}: statement {k} changed:\n  expected: {w}\n  got:      {g}")
+    c = body[4]
+    if not (isinstance(c, ast.Assign) and _u(c.targets[0]) == "snapshot" and isinstance(c.value, ast.Call) and _u(c.value.func) == "Snapshot" and not c.value.args):
+        raise Unsupported(f"{where}: the Snapshot(...) construction changed")
+    kw = {k.arg: _u(k.value) for k in c.value.keywords}
+    need = {"snapshot_id": "snapshot_id", "timestamp_ms": "int(datetime.now().timestamp() * 1000)", "manifest_list": "manifest_list_path",
+            "parent_snapshot_id": "parent_snapshot_id", "sequence_number": "sequence_number"}
+    for k_, v in need.items():
+        if kw.get(k_) != v:
+            raise Unsupported(f"{where}: Snapshot({k_}=...) is {kw.get(k_)!r}, expected {v!r}")
+    return ("(* SnapshotManager.create_snapshot(base_metadata = m, snapshot_id, sequence_number, parent_snapshot_id given; t = the clock\n"
+            "   reading; ml = the manifests the manifest list names; cut = the expiry cutoff folded in as metadata_mutator), up to the\n"
+            "   commit.  PyRaise = the mutator removed the snapshot being committed *)\n"
+            "Definition gen_create_snapshot (m : meta) (snapshot_id t : Z) (ml : list manifest) (parent_snapshot_id : option Z)\n"
+            "                               (sequence_number : Z) (cut : option Z) : pyres meta :=\n"
+            "  let snapshot := {| sid := snapshot_id; ts := t; parent := parent_snapshot_id; seq := sequence_number; mlist := ml |} in\n"
+            "  let new_metadata :=\n"
+            "    {| cur := Some snapshot_id; snaps := snaps m ++ [snapshot]; slog := slog m ++ [(ts snapshot, sid snapshot)];\n"
+            "       last_seq := Z.max (last_seq m) sequence_number; last_updated := last_updated m;\n"
+            "       retention := retention m; prevmax := prevmax m; mlog := mlog m |} in\n"
+            "  match cut with\n"
+            "  | Some cutoff_ms =>\n"
+            "      let new_metadata := gen_expire cutoff_ms new_metadata in\n"
+            "      if forallb (fun s => negb (sid s =? snapshot_id)) (snaps new_metadata) then PyRaise\n"
+            "      else PyOk (gen_apply_retention new_metadata)\n"
+            "  | None => PyOk (gen_apply_retention new_metadata)\n"
+            "  end.\n")
+
+
 @generator("GenMeta.v")
 def gen(src: str) -> str:
     sm = parse_module(src, "snapshot_manager.py")
@@ -744,6 +803,7 @@ def gen(src: str) -> str:
         gen_by_timestamp(sm),
         gen_append_mlog(mm),
         gen_delete_snapshot(sm),
+        gen_create_snapshot(sm),
     ]
     return "\n".join(parts)
 
